@@ -3,13 +3,16 @@
 'use strict';
 const fs = require('fs'), readline = require('readline');
 const file = process.argv[2];
-let lines = 0, cases = 0, bad = 0, skipped = 0, midpair = 0;
+let lines = 0, cases = 0, bad = 0, skipped = 0, midpair = 0, oldiv = 0;
 const inPair = (h, i) => i > 0 && i < h.length && (h.charCodeAt(i - 1) & 0xFC00) === 0xD800 && (h.charCodeAt(i) & 0xFC00) === 0xDC00;
 const rl = readline.createInterface({ input: fs.createReadStream(file), crlfDelay: Infinity });
 rl.on('line', (line) => {
   if (!line) return;
   lines++;
   const c = JSON.parse(line);
+  // V8 11.3 applies && and -- to the unfolded operand sets under iv (e.g. /[\\w--a]/iv matches 'a', /[k&&K]/iv
+  // does not match 'k'), predating the final MaybeSimpleCaseFolding text of ES2024; such patterns are not compared.
+  if (c.f.includes('i') && c.f.includes('v') && (c.p.includes('--') || c.p.includes('&&'))) { oldiv++; return; }
   let re;
   try { re = new RegExp(c.p, c.f + 'gd'); } catch (e) { skipped++; if (skipped <= 5) console.log('V8 rejects', JSON.stringify(c.p), c.f, String(e)); return; }
   for (const r of c.r) {
@@ -29,6 +32,6 @@ rl.on('line', (line) => {
   }
 });
 rl.on('close', () => {
-  console.log(`v8_crosscheck: ${lines} lines, ${cases} cases, ${skipped} patterns V8 rejects, ${midpair} V8 mid-surrogate-pair quirks ignored, ${bad} disagreements`);
+  console.log(`v8_crosscheck: ${lines} lines, ${cases} cases, ${skipped} patterns V8 rejects, ${midpair} V8 mid-surrogate-pair quirks ignored, ${oldiv} iv set-operation lines not compared (old V8 semantics), ${bad} disagreements`);
   process.exit(bad > 0 ? 1 : 0);
 });
